@@ -38,7 +38,7 @@ PROPS = {
     },
     'C02': {
         'level': 'exploration',
-        'batches': [{'mode': 'fuzzreg', 'quick': 'all', 'thorough': 'all', 'chunk': 40}, {'mode': 'shape', 'quick': 12000, 'thorough': 500000, 'chunk': 100}, {'mode': 'synth', 'quick': 15000, 'thorough': 600000, 'chunk': 200}, {'mode': 'just', 'quick': 8000, 'thorough': 300000, 'chunk': 400}],
+        'batches': [{'mode': 'fuzzreg', 'quick': 'all', 'thorough': 'all', 'chunk': 40}, {'mode': 'shape', 'quick': 12000, 'thorough': 500000, 'chunk': 100}, {'mode': 'synth', 'quick': 30000, 'thorough': 900000, 'chunk': 200}, {'mode': 'just', 'quick': 8000, 'thorough': 300000, 'chunk': 400}],
         'rule': 'one run = one (possibly rotten or synthesised) font storage accepted by gr_make_face + 3..40 gr_make_seg calls with the full accessor script (just mode: the accessor script again after gr_seg_justify); '
                 'distinct = distinct plan hash; non-trivial = face accepted and at least one segment operation executed',
         'require_probes': ['seg:returned', 'seg:exercised'],
@@ -56,7 +56,7 @@ PROPS['C19'] = {
 
 _MON = {
     'level': 'exploration',
-    'batches': [{'mode': 'synth', 'quick': 16000, 'thorough': 800000, 'chunk': 200}, {'mode': 'shape', 'quick': 6000, 'thorough': 300000, 'chunk': 100}, {'mode': 'hist', 'quick': 3000, 'thorough': 150000, 'chunk': 100},
+    'batches': [{'mode': 'synth', 'quick': 48000, 'thorough': 1200000, 'chunk': 200}, {'mode': 'shape', 'quick': 6000, 'thorough': 300000, 'chunk': 100}, {'mode': 'hist', 'quick': 3000, 'thorough': 150000, 'chunk': 100},
                 {'mode': 'just', 'quick': 8000, 'thorough': 400000, 'chunk': 400}, {'mode': 'conf', 'quick': 2000, 'thorough': 100000, 'chunk': 100}],
     'require_probes': ['monitor:segments', 'seg:returned'],
     'assumptions': _ASSUME + ['the program dimension is reached through storage faults on the shipped rule sets, not through a rule compiler'],
